@@ -4,7 +4,7 @@ import os
 
 from .. import tlc
 from ..adapters import accounting as ad
-from . import c02
+from . import c02, c14
 
 
 def run(ctx):
@@ -50,6 +50,8 @@ def run(ctx):
             args.update({"action": d.field, "scale": scale})
             ctx.violation("Accounting", "replay:" + d.field, args, {"expected": d.expected, "observed": d.observed, "spec": out})
     c02.run_for(ctx, "C20", num_quick=60, num_thorough=1500, check_bytes=False)
+    # recordings onto existing RAW: the reported length / totals describe the clamped number of blocks (InputMode.tla)
+    c14.run_for(ctx, "C20", num_quick=60, num_thorough=400)
     ctx.notes["rule"] = ("configurations (rate, branches, taps, channels, antennas, pols, bits, block multiplier, blocks) from "
                          "Accounting.tla with exact expectations (12 durations each, 3 fine-channelisation cases, one recording "
                          "by duration) + Backend.tla recordings; distinct = distinct configurations")
